@@ -9,12 +9,12 @@ def plan(tier, seed):
     for case in CASES:
         Bs = [2] if case in ("symnco", "scaled_norm") else [3]
         if tier == "thorough":
-            Bs = sorted(set(Bs + [2, 3])) if case not in ("symnco",) else [2, 3]
+            Bs = sorted(set(Bs + [1, 2, 3, 4])) if case not in ("symnco", "scaled_norm", "ppo") else ([2, 3] if case != "ppo" else [2, 3, 4])
         for B in Bs:
             for S in ([2] if tier == "quick" or case not in ("pomo", "symnco") else [2, 3]):
                 jobs.append({"id": f"C16:{case} B={B} S={S}", "module": "vf.training", "func": "loss_job", "params": dict(case=case, B=B, S=S)})
     return {"jobs": jobs, "level": "model_checking",
-            "bounds": "batch B<=3, starts/augmentations S<=3, 3 successive steps for stateful baselines; rewards, log-likelihoods, critic values, entropies and their tangents symbolic",
+            "bounds": "batch B<=4 (B=1 included where the sample statistics are defined), starts/augmentations S<=3, 3 successive steps for stateful baselines; rewards, log-likelihoods, critic values, entropies and their tangents symbolic",
             "outside": "optimizer step, gradient clipping, Lightning manual-optimisation plumbing; PPO advantage normalisation (nonlinear std) is covered for REINFORCE's scaler only"}
 
 
